@@ -172,6 +172,81 @@ def run_instances(ctx, stream, insts):
                                        "line": gen.rule_line(c), "impl": i, "model": a.get("M"), "python": python_snippet(c)})
 
 
+def _scanned_regex_case(case):
+    """regex / partial-name rules on SCANNED architectures (external libraries included): the pattern stands for the modules of
+    the architecture it matches - library modules included - and the rule equals the rule that names them"""
+    import random as _random
+    import re as _re
+
+    from .. import scan_common as sc
+    from ..impl import Rule, err_kind, get_evaluable_architecture, graph_snapshot
+
+    tree, seed = case
+    rng = _random.Random(seed)
+    out = []
+    with sc.write_project(tree) as proj:
+        try:
+            ev = get_evaluable_architecture(proj.path("proj"), proj.path("proj"), exclude_external_libraries=False)
+        except Exception as e:  # noqa: BLE001
+            return [("SCANERR", err_kind(e), "", "")]
+        nodes = sorted(graph_snapshot(ev)[0])
+        ext = [n for n in nodes if not (n == "proj" or n.startswith("proj."))]
+
+        def outcome(mk):
+            try:
+                mk().assert_applies(ev)
+                return "PASS"
+            except AssertionError:
+                return "FAIL"
+            except Exception as e:  # noqa: BLE001
+                return "ERR:" + err_kind(e)
+
+        for _ in range(4):
+            n = rng.choice(ext) if ext and rng.random() < 0.6 else rng.choice(nodes)
+            pat = rng.choice([_re.escape(n) + "$", _re.escape(n.split(".")[0]) + r"(\..*)?$", _re.escape(n[: max(1, len(n) - 1)]) + ".*", ".*" + _re.escape(n.split(".")[-1]) + "$"])
+            matched = [m for m in nodes if _re.match(pat, m)]
+            other = rng.choice([m for m in nodes if m.startswith("proj")] or nodes)
+            verb = rng.choice(["should", "should_not"])
+            side = rng.random() < 0.5
+            if side:
+                compact = lambda: getattr(Rule().modules_that().have_name_matching(pat), verb)().be_imported_by_modules_that().are_named(other)  # noqa: E731
+                named = lambda: getattr(Rule().modules_that().are_named(matched), verb)().be_imported_by_modules_that().are_named(other)  # noqa: E731
+            else:
+                compact = lambda: getattr(Rule().modules_that().are_named(other), verb)().import_modules_that().have_name_matching(pat)  # noqa: E731
+                named = lambda: getattr(Rule().modules_that().are_named(other), verb)().import_modules_that().are_named(matched)  # noqa: E731
+            out.append((pat, outcome(compact), outcome(named) if matched else "ERR:impossibleMatch", f"{verb} side={'subject' if side else 'object'} other={other} matched={matched[:6]}"))
+    return out
+
+
+def scanned_regex_stream(ctx, stream, n):
+    from .. import scan_common as sc
+    from ..core import pmap
+
+    rng = ctx.rng("scanned-regex")
+    cases = []
+    for _ in range(n):
+        tree = sc.gen_tree(rng)
+        sc.fill_sources(rng, tree, externals=True)
+        pys = [p for p in tree if p.endswith(".py")]
+        if pys:
+            tree[rng.choice(pys)] += rng.choice(["import os.path\nimport json\n", "import ext.lib.x\n", "from ab.cd import z\n"])
+        cases.append((tree, rng.randrange(1 << 30)))
+    res = pmap(_scanned_regex_case, cases, ctx.jobs, chunk=10)
+    for (tree, _), outs in zip(cases, res):
+        for pat, compact, named, info in outs:
+            stream.evaluations += 1
+            stream.count("compact:" + compact.split(":")[0])
+            if pat == "SCANERR":
+                continue
+            stream.nontrivial.add(digest((sorted(tree), pat, info)))
+            if compact != named:
+                ctx.violations.append({"kind": "property-violation",
+                                       "what": f"on a scanned architecture (external libraries included) the rule with the pattern {pat!r} gives {compact}, the rule naming the matching modules gives {named}",
+                                       "files": dict(tree), "rule": info})
+                if len(ctx.violations) >= 3:
+                    return
+
+
 def run(ctx: Ctx):
     from ..rules_common import interpreter_modes
 
@@ -203,4 +278,8 @@ def run(ctx: Ctx):
     s = Stream(ctx, "re-used rule objects: second application vs a fresh rule object")
     reuse_stream(ctx, s, ctx.size(800, 10000))
     s.finish()
+    if not ctx.violations:
+        st = Stream(ctx, "regex specifications on scanned architectures with external libraries included (patterns matching library modules)")
+        scanned_regex_stream(ctx, st, ctx.size(300, 6000))
+        st.finish()
     return RULE
